@@ -146,8 +146,10 @@ Definition def_bad (vnt : bool) (f : afield) : list (pystr * reason) :=
   | VReject r => [(af_name f, r)]
   | _ => []
   end.
-Definition def_check (v : variant) (bound : list pystr) (fs : list afield) : defcheck :=
-  if forallb (fun f => forallb (fun n => existsb (pystr_eqb n) bound) (names_of (af_ty f))) fs then
+(* [anns]: every annotation found in the MRO, overridden ones included - get_type_hints evaluates them all and a
+   single unbound name (NameError) skips the whole check; [fs]: the merged fields that are then examined *)
+Definition def_check (v : variant) (bound : list pystr) (anns fs : list afield) : defcheck :=
+  if forallb (fun f => forallb (fun n => existsb (pystr_eqb n) bound) (names_of (af_ty f))) anns then
     match flat_map (def_bad (v_nt v)) fs with [] => DOk | bad => DReject bad end
   else DSkipped.
 
@@ -156,14 +158,15 @@ Record acls := { ac_name : pystr; ac_own : list afield }.
 Inductive clsobs := ClsObs (d : defcheck) (u : option outcome).   (* u = None: the definition raised *)
 
 (* bound: node class names bound in the module when the class statement runs (its own name is not) *)
-Fixpoint run_chain (v : variant) (bound : list pystr) (inherited : list afield) (cs : list acls) : list clsobs :=
+Fixpoint run_chain (v : variant) (bound : list pystr) (anns inherited : list afield) (cs : list acls) : list clsobs :=
   match cs with
   | [] => []
   | c :: r =>
     let fs := merge_af inherited (ac_own c) in
-    match def_check v bound fs with
+    let anns' := anns ++ ac_own c in
+    match def_check v bound anns' fs with
     | DReject bad => [ClsObs (DReject bad) None]                      (* the class statement raises: chain ends *)
-    | d => ClsObs d (Some (first_use v fs)) :: run_chain v (ac_name c :: bound) fs r
+    | d => ClsObs d (Some (first_use v fs)) :: run_chain v (ac_name c :: bound) anns' fs r
     end
   end.
 
